@@ -20,7 +20,7 @@ from ..histgen import gen_dataset, _data
 from ..refmodels import glasso
 
 ID = "C13"
-TIERS = {"quick": dict(runs=2500, budget=40, det=12, chunk=16),
+TIERS = {"quick": dict(runs=8000, budget=40, det=12, chunk=32),
          "thorough": dict(runs=200000, budget=560, det=120, chunk=32)}
 INCONCLUSIVE_CEILING = 0.25
 RULE = ("seeded runs of SDML (optionally an object with an earlier fit): (a) fault-free with a "
@@ -70,8 +70,8 @@ def gen_plan(seed, tier):
   desc["tuples"] = r.randint(8, 30)
   if r.random() < 0.3:
     desc["kind"] = "grid"
-  elif r.random() < 0.2:
-    desc["offset"] = r.choice([1e3, 1e5, 1e7])     # large common offset relative to the spread
+  elif r.random() < 0.3:
+    desc["offset"] = r.choice([1e5, 1e7, 3e7])     # large common offset relative to the spread
   prior = r.choice(["identity", "identity", "covariance", "random", "array"])
   if desc["kind"] == "grid" and prior == "covariance":
     prior = "identity"
@@ -217,7 +217,8 @@ def run_plan(plan):
     cov["witness_from_M_start"] += int(f1 <= f2)
     nontrivial = True
     gap = fM - fref
-    ev["gap_bucket"] = "neg" if gap < 0 else ("<1e-6" if gap < 1e-6 else ("<1e-4" if gap < 1e-4 else "big"))
+    ev["gap_bucket"] = "neg" if gap < 0 else ("<1e-6" if gap < 1e-6 else ("<1e-5" if gap < 1e-5 else (
+        "<1e-4" if gap < 1e-4 else ("<5e-4" if gap < 5e-4 else "big"))))
     cov["gap_" + ev["gap_bucket"]] += 1
     if gap > GAP_TOL * (1.0 + abs(fref)):
       raise Violation("not_optimal", "prior=%s" % pname,
